@@ -8,7 +8,12 @@ use std::borrow::Borrow;
 use std::error::Error;
 use std::fmt::{self, Debug, Display, Formatter};
 use std::hash::{BuildHasher, Hash};
+#[cfg(not(flurry_verif))]
 use std::sync::atomic::{AtomicIsize, Ordering};
+#[cfg(flurry_verif)]
+use crate::verif::{event, AtomicIsize, Ev};
+#[cfg(flurry_verif)]
+use std::sync::atomic::Ordering;
 
 const ISIZE_BITS: usize = core::mem::size_of::<isize>() * 8;
 
@@ -447,6 +452,10 @@ impl<K, V, S> HashMap<K, V, S> {
             let mut sc = self.size_ctl.load(Ordering::SeqCst);
             if sc < 0 {
                 // we lost the initialization race; just spin
+                #[cfg(flurry_verif)]
+                event(Ev::InitTableLost, 0, 0);
+                #[cfg(flurry_verif)]
+                crate::verif::spin_hint();
                 std::thread::yield_now();
                 continue;
             }
@@ -469,6 +478,8 @@ impl<K, V, S> HashMap<K, V, S> {
                     };
                     table = Shared::boxed(Table::new(n, &self.collector), &self.collector);
                     self.table.store(table, Ordering::SeqCst);
+                    #[cfg(flurry_verif)]
+                    event(Ev::TableInit, n, 0);
                     sc = load_factor!(n as isize)
                 }
                 self.size_ctl.store(sc, Ordering::SeqCst);
@@ -639,6 +650,8 @@ where
                 {
                     // someone else already started to resize the table
                     // TODO: can we `self.help_transfer`?
+                    #[cfg(flurry_verif)]
+                    event(Ev::PresizeResize, current_capactity, 0);
                     self.transfer(table, Shared::null(), guard);
                 }
             }
@@ -660,15 +673,21 @@ where
         // won't be dropped while the guard remains active.
         let n = unsafe { table.deref() }.len();
         let ncpu = num_cpus();
+        #[cfg(flurry_verif)]
+        let ncpu = crate::verif::knob_ncpu(ncpu);
 
         let stride = if ncpu > 1 { (n >> 3) / ncpu } else { n };
         let stride = std::cmp::max(stride as isize, MIN_TRANSFER_STRIDE);
+        #[cfg(flurry_verif)]
+        let stride = crate::verif::knob_stride(stride, n, ncpu);
 
         if next_table_ptr.is_null() {
             // we are initiating a resize
             let table = Shared::boxed(Table::new(n << 1, &self.collector), &self.collector);
             let now_garbage = self.next_table.swap(table, Ordering::SeqCst, guard);
             assert!(now_garbage.is_null());
+            #[cfg(flurry_verif)]
+            event(Ev::ResizeStarted, n, unsafe { table.as_ptr() } as usize);
             self.transfer_index.store(n as isize, Ordering::SeqCst);
             next_table_ptr = self.next_table.load(Ordering::Relaxed, guard);
         }
@@ -720,6 +739,8 @@ where
                     // this branch is only taken for one thread partaking in the resize!
                     self.next_table.store(Shared::null(), Ordering::SeqCst);
                     let now_garbage = self.table.swap(next_table_ptr, Ordering::SeqCst, guard);
+                    #[cfg(flurry_verif)]
+                    event(Ev::Published, n, unsafe { next_table_ptr.as_ptr() } as usize);
                     // safety: need to guarantee that now_garbage is no longer reachable. more
                     // specifically, no thread that executes _after_ this line can ever get a
                     // reference to now_garbage.
@@ -757,6 +778,12 @@ where
                     .compare_exchange(sc, sc - 1, Ordering::SeqCst, Ordering::Relaxed)
                     .is_ok()
                 {
+                    #[cfg(flurry_verif)]
+                    event(
+                        Ev::HelperLeft,
+                        n,
+                        ((sc - 2) == Self::resize_stamp(n) << RESIZE_STAMP_SHIFT) as usize,
+                    );
                     if (sc - 2) != Self::resize_stamp(n) << RESIZE_STAMP_SHIFT {
                         return;
                     }
@@ -791,6 +818,10 @@ where
                         guard,
                     )
                     .is_ok();
+                #[cfg(flurry_verif)]
+                if advance {
+                    event(Ev::BinMigrated, n, i);
+                }
                 continue;
             }
             // safety: as for table above
@@ -823,6 +854,10 @@ where
 
                     // need to check that this is _still_ the head
                     let current_head = table.bin(i, guard);
+                    #[cfg(flurry_verif)]
+                    if current_head != bin {
+                        event(Ev::HeadChanged, 1, 0);
+                    }
                     if current_head != bin {
                         // nope -- try again from the start
                         continue;
@@ -906,6 +941,8 @@ where
                     next_table.store_bin(i, low_bin);
                     next_table.store_bin(i + n, high_bin);
                     table.store_bin(i, table.get_moved(next_table_ptr, guard));
+                    #[cfg(flurry_verif)]
+                    event(Ev::BinMigrated, n, i);
 
                     // everything up to last_run in the _old_ bin linked list is now garbage.
                     // those nodes have all been re-allocated in the new bin linked list.
@@ -1061,6 +1098,10 @@ where
                     next_table.store_bin(i, low_bin);
                     next_table.store_bin(i + n, high_bin);
                     table.store_bin(i, table.get_moved(next_table_ptr, guard));
+                    #[cfg(flurry_verif)]
+                    event(Ev::BinMigrated, n, i);
+                    #[cfg(flurry_verif)]
+                    event(Ev::TreeSplit, low_count, high_count);
 
                     // if we did not re-use the old bin, it is now garbage,
                     // since all of its nodes have been reallocated. However,
@@ -1124,6 +1165,8 @@ where
                 .compare_exchange(sc, sc + 1, Ordering::SeqCst, Ordering::Relaxed)
                 .is_ok()
             {
+                #[cfg(flurry_verif)]
+                event(Ev::HelperJoined, unsafe { table.deref() }.len(), 0);
                 self.transfer(table, next_table, guard);
                 break;
             }
@@ -1194,6 +1237,8 @@ where
                     .compare_exchange(sc, sc + 1, Ordering::SeqCst, Ordering::Relaxed)
                     .is_ok()
                 {
+                    #[cfg(flurry_verif)]
+                    event(Ev::HelperJoined, n, 1);
                     self.transfer(table, nt, guard);
                 }
             } else if self
@@ -1718,6 +1763,8 @@ where
                         };
                     }
                     Err(changed) => {
+                        #[cfg(flurry_verif)]
+                        event(Ev::CasInsertLost, 0, 0);
                         assert!(!changed.current.is_null());
                         bin = changed.current;
                         let BinEntry::Node(node) = unsafe { changed.new.into_box() }.value else {
@@ -1771,6 +1818,10 @@ where
 
                     // need to check that this is _still_ the head
                     let current_head = t.bin(bini, guard);
+                    #[cfg(flurry_verif)]
+                    if current_head != bin {
+                        event(Ev::HeadChanged, 2, 0);
+                    }
                     if current_head != bin {
                         // nope -- try again from the start
                         continue;
@@ -1861,6 +1912,10 @@ where
 
                     // need to check that this is _still_ the correct bin
                     let current_head = t.bin(bini, guard);
+                    #[cfg(flurry_verif)]
+                    if current_head != bin {
+                        event(Ev::HeadChanged, 3, 0);
+                    }
                     if current_head != bin {
                         // nope -- try again from the start
                         continue;
@@ -2277,6 +2332,8 @@ where
                                         guard,
                                     );
                                     t.store_bin(bini, linear_bin);
+                                    #[cfg(flurry_verif)]
+                                    event(Ev::UntreeifiedOnRemove, bini, linear_bin.is_null() as usize);
                                     // the old bin is now garbage, but its values are not,
                                     // since they are re-used in the linear bin.
                                     // safety: in the same way as for `now_garbage` above, any existing
@@ -2488,6 +2545,10 @@ where
                             let ev = n.value.load(Ordering::SeqCst, guard);
 
                             // only replace the node if the value is the one we expected at method call
+                            #[cfg(flurry_verif)]
+                            if observed_value.map(|ov| ov != ev).unwrap_or(false) {
+                                event(Ev::RetainCompareFailed, 0, 0);
+                            }
                             if observed_value.map(|ov| ov == ev).unwrap_or(true) {
                                 // we remember the old value so that we can return it and mark it for deletion below
                                 old_val = Some((&n.key, ev));
@@ -2567,6 +2628,10 @@ where
                     let pv = n.value.load(Ordering::SeqCst, guard);
 
                     // only replace the node if the value is the one we expected at method call
+                    #[cfg(flurry_verif)]
+                    if observed_value.map(|ov| ov != pv).unwrap_or(false) {
+                        event(Ev::RetainCompareFailed, 1, 0);
+                    }
                     if observed_value.map(|ov| ov == pv).unwrap_or(true) {
                         // we remember the old value so that we can return it and mark it for deletion below
                         old_val = Some((&n.key, pv));
@@ -2590,6 +2655,8 @@ where
                                 let linear_bin = self
                                     .untreeify(tree_bin.first.load(Ordering::SeqCst, guard), guard);
                                 t.store_bin(bini, linear_bin);
+                                #[cfg(flurry_verif)]
+                                event(Ev::UntreeifiedOnRemove, bini, linear_bin.is_null() as usize);
                                 // the old bin is now garbage, but its values are not,
                                 // since they get re-used in the linear bin
                                 // safety: same as in put
@@ -2786,6 +2853,8 @@ where
                     // and have never shared them
                     let head_bin = unsafe { BinEntry::Tree(TreeBin::new(head, guard)) };
                     tab.store_bin(index, Shared::boxed(head_bin, &self.collector));
+                    #[cfg(flurry_verif)]
+                    event(Ev::Treeified, index, 0);
                     drop(lock);
                     // make sure the old bin entries get dropped
                     e = bin;
@@ -2811,6 +2880,8 @@ where
                     }
                 }
                 BinEntry::Moved | BinEntry::Tree(_) => {
+                    #[cfg(flurry_verif)]
+                    event(Ev::TreeifyRaced, 0, 0);
                     // The bin we wanted to treeify has changed under us. This is possible because
                     // the call to `treeify_bin` does not happen inside the critical section of its
                     // callers (while they are holding the lock). To see why, consider the
